@@ -146,7 +146,13 @@ Definition fill (kd : kind) (nind : nat) (vcounts : list nat) (mat : option N)
         match omapM (mk_view t 3) (bucket TEXBINORMAL ins) with Raise e => Raise e | Ok tbs =>
         Ok (Prim kd nind rows (Some vv) nv tcs tts tbs vcounts mat)
         end end
-      | _ => Ok (Prim kd nind rows (Some vv) nv tcs [] [] vcounts mat)
+      | KPolylist | KPolygons =>
+        (* checked (triangleset() hands them to TriangleSet) but not exposed *)
+        match omapM (mk_view t 3) (bucket TEXTANGENT ins) with Raise e => Raise e | Ok _ =>
+        match omapM (mk_view t 3) (bucket TEXBINORMAL ins) with Raise e => Raise e | Ok _ =>
+        Ok (Prim kd nind rows (Some vv) nv tcs [] [] vcounts mat)
+        end end
+      | KLine => Ok (Prim kd nind rows (Some vv) nv tcs [] [] vcounts mat)
       end end end end
     end
   end.
